@@ -255,7 +255,8 @@ Record merged := {
   m_types : list definition;
   m_dirs : list dirdef;
   m_possible : list (string * list string);   (* abstract or concrete type -> names of possible types *)
-  m_implements : list (string * list string)  (* type -> interfaces registered for it *)
+  m_implements : list (string * list string); (* type -> interfaces registered for it *)
+  m_roots : list string                       (* the names of schema.Query, .Mutation, .Subscription ("" when nil) *)
 }.
 
 Definition merge_named_group (g : string * list definition) : res definition :=
@@ -301,7 +302,8 @@ Definition merge_schemas (sources : list schema) : res merged :=
   Ok {| m_types := types; m_dirs := dirs;
         m_possible := group_pairs (flat_map (possible_of types) types) [];
         m_implements := map (fun d => (df_name d, filter (fun i => match find_def i types with Some _ => true | None => false end) (df_ifaces d)))
-                            (filter (fun d => negb (kind_eqb (df_kind d) KUnion)) types) |}.
+                            (filter (fun d => negb (kind_eqb (df_kind d) KUnion)) types);
+        m_roots := map (fun n => match find_def n types with Some _ => n | None => "" end) ["Query"; "Mutation"; "Subscription"] |}.
 
 (* ---- gateway.go: fieldURLs, Concat, RegisterURL (the routing table) ---- *)
 
